@@ -17,16 +17,22 @@ import RTV.Lemmas.CjkJa
 Model: `RTV.Num.getIntValue` = `BaseNumberParser.__get_int_value` (end-word scan, stack walk, round-number
 recursion; the variant in the tree, whose scan reaches index 0) with the **regenerated** English maps
 (`RTV/Gen/NumEn.lean`); specification: `RTV.Num.pieces` — the standard written-out form of `n` in 8 spelling
-variants (with/without "and" after "hundred", British "and" before a final group below 100, hyphenated tens),
-cardinal and ordinal. The correspondence harness takes its English inputs from this very function (driver op
-`n.spell`) and checks that `text_number_regex` tokenises the surface string into exactly `spell n v`.
+variants of the TEXT (with/without "and" after "hundred", British "and" before a final group below 100, hyphenated
+tens), cardinal and ordinal.  At TOKEN level these are 4 distinct lists: `spell` / `spellOrd` do not depend on `v.hyphen`
+(a hyphen is no token; `RTV.Props.C04Text.spell_ignores_hyphen`), the hyphen exists in `spellText` only.  The theorems of
+this file start AFTER tokenisation (`spell n v` = the token list); the tokeniser enters the statement in
+`RTV.Props.C04Text` / `C04TextEu` (`getIntValue (textTokens (spellText n v ord)) = n`, on samples, en / es / fr / de), and
+the correspondence harness takes its English inputs from this very function (driver op `n.spell`) and checks on every
+numeral it generates that the REAL `text_number_regex` tokenises the surface string into exactly `spell n v`.
 
 Proof shape: the words of 1..99 (cardinal / ordinal, with / without a leading "and") and the round words are
 evaluated by the kernel on the regenerated maps (`flat_facts`, `round_words` in `Lemmas/Spell` — a wrong map entry,
 e.g. `"seventy" ↦ 17`, breaks them); hundreds and the thousand / million / billion / trillion groups are composed
 with the round-number step lemma `good_step` (`Lemmas/IntValue`), for every `n`, without bound on the recursion.
-Other cultures: their maps are regenerated and the shared algorithm is tied to the code by unit correspondence on
-token lists over their own keys; no theorem is claimed for their numeral grammars (pipeline correspondence only).
+Other cultures: Spanish, Portuguese, German, Dutch (all `n < 10^6` here, `n < 10^15` in `RTV.Props.C04Big`), French and
+Italian with exact guards (`C04Big2`), ordinals below 1000 (`C04Big2`), Chinese / Japanese (below; `C04Cjk`) — each on the
+specification's token list `(spellEu … n).2`, whose tie to the written form `.1` is the harness's tokenisation check on the
+real tokeniser plus, for es / fr / de, the tokeniser model on samples (`C04TextEu`).
 -/
 namespace RTV.Num
 open RTV.Py
